@@ -195,7 +195,7 @@ theorem P.frameAddr_after (p1 : P) (hT : TInv p1) (hd : SDecAll p1) (t : Nat) (a
     (cs : (Str × Nat) × Str) (hcs : subNames p1.cats c s = some cs) (p2 : P) (t' i : Nat)
     (h : p1.frameAddr t a c s flags = (p2, .h [t', i])) :
     t' = t ∧ ∃ th pr la th2 k d, p1.threads[t]? = some th ∧ p1.processes[th.process]? = some pr ∧
-      resolveLib pr.maps a = some la ∧ p2.threads[t]? = some th2 ∧ th2.frames.keys[i]? = some k ∧
+      resolveLib (effMaps p1.kmaps pr.maps a) a = some la ∧ p2.threads[t]? = some th2 ∧ th2.frames.keys[i]? = some k ∧
       p2.descOf th2 k = some d ∧
       d.cat = cs.1 ∧ d.sub = cs.2 ∧ d.depth = 0 ∧ d.file = none ∧ d.line = none ∧ d.col = none ∧ d.flags = flags ∧
       addrTail p1.libs th la d := by
@@ -210,11 +210,12 @@ theorem P.frameAddr_after (p1 : P) (hT : TInv p1) (hd : SDecAll p1) (t : Nat) (a
       simp only [hpr] at h
       have hthI := hT.threads th (List.mem_of_getElem? hth)
       obtain ⟨a1, _, a3, _⟩ := hthI
-      have hmaps : ∀ m ∈ pr.maps, m.lib < p1.libs.all.length := hT.maps pr (List.mem_of_getElem? hpr)
+      have hmaps : ∀ m ∈ effMaps p1.kmaps pr.maps a, m.lib < p1.libs.all.length :=
+          effMaps_libs hT.kmaps (hT.maps pr (List.mem_of_getElem? hpr)) a
       have hsd := hd th (List.mem_of_getElem? hth)
-      cases hr : resolveAddr p1.libs pr.maps a with
+      cases hr : resolveAddr p1.libs (effMaps p1.kmaps pr.maps a) a with
       | mk libs res =>
-        obtain ⟨hun, hin⟩ := resolveAddr_lib p1.libs hT.libs pr.maps hmaps a libs res hr
+        obtain ⟨hun, hin⟩ := resolveAddr_lib p1.libs hT.libs (effMaps p1.kmaps pr.maps a) hmaps a libs res hr
         rw [hr] at h
         cases res with
         | invalid => simp at h
@@ -286,13 +287,14 @@ theorem addr_step (p : P) (hI : Inv p) (hd : SDecAll p) (t : Nat) (a : AddrSpec)
   have hth := p.resolveSub_threads sc
   have hlibs : (p.resolveSub sc).1.libs = p.libs := by rw [e]
   have hprocs : (p.resolveSub sc).1.processes = p.processes := by rw [e]
+  have hkm : (p.resolveSub sc).1.kmaps = p.kmaps := by rw [e]
   simp only [step] at hout ⊢
   unfold P.withSub at hout ⊢
   unfold P.AddrFrameSpec
   cases hr : p.resolveSub sc with
   | mk p1 r =>
-    rw [hr] at hok hinv hg hth hout hp1 hlibs hprocs
-    simp only at hok hinv hg hth hout hp1 hlibs hprocs ⊢
+    rw [hr] at hok hinv hg hth hout hp1 hlibs hprocs hkm
+    simp only at hok hinv hg hth hout hp1 hlibs hprocs hkm ⊢
     cases r with
     | invalid => exact absurd rfl hinv
     | panic => simp at hout
@@ -315,7 +317,7 @@ theorem addr_step (p : P) (hI : Inv p) (hd : SDecAll p) (t : Nat) (a : AddrSpec)
           obtain ⟨_, th, pr, la, th2, k, d, e1, e2, e3, e4, e5, e6, f1, f2, f3, f4, f5, f6, f7, f8⟩ :=
             p1.frameAddr_after hp1 hd1 t a c s flags cs hcs p2 t i hk
           refine ⟨d, th2, k, ⟨p1, c, s, cs, th, pr, la, rfl, hcs, by rw [← hth]; exact e1, by rw [← hprocs]; exact e2,
-            e3, f1, f2, f3, f4, f5, f6, f7, by rw [← hlibs]; exact f8⟩, e4, e5, e6⟩
+            by rw [← hkm]; exact e3, f1, f2, f3, f4, f5, f6, f7, by rw [← hlibs]; exact f8⟩, e4, e5, e6⟩
         | ok => simp at hout
         | noStack => simp at hout
         | rejected => simp at hout
